@@ -41,7 +41,7 @@ def gen_cases(tier, seed):
         if fam == "INF":
             cfgd["iteration_limit"] = 500
             cfgd["control"] = str(rng.choice(["DistanceRatio", "DistanceRatio", "Exact", "ResiduumRatio"]))
-            case["gopts"] = {"variant": int(rng.choice([1, 2, 2, 0, 3, 4, 5, 5]))}
+            case["gopts"] = {"variant": int(rng.choice([1, 2, 2, 0, 3, 4, 5, 5, 6, 6]))}
             if rng.random() < 0.3:
                 cfgd.update(C.rare_params(rng))
         elif fam == "UNB":
@@ -108,6 +108,8 @@ def run_case(case):
     so = np.ldexp(1.0, w.ow)
     res["nt_keys"] = ["%s-%s" % (case["fam"], "-".join(map(str, case["gseed"])))]
     res["ctr"]["judged_" + st] = 1
+    if spec.meta.get("variant") == "marginal-parallel-rows":
+        res["ctr"]["marginal_parallel_rows_judged_" + st] = 1
     if st == "TimeLimit":
         if not clock.expired_seen:
             bad("time-limit-early", "TimeLimit returned although the clock never reached start + time_limit")
@@ -189,6 +191,7 @@ def finalize(agg, tier):
                 "all results); distinct by spec seed",
         "floors": {"judged_LocallyInfeasible": 25, "judged_Unbounded": 25, "judged_IterationLimit": 100,
                    "judged_TimeLimit": 30, "family_NARROW": 30},
+        "extra": {"note": "marginal-parallel-rows instances (k rows missing each other by 0.72..0.97 x 2e-6) are solvable to the default tolerance; any LocallyInfeasible verdict on them is judged like every other one"},
         "assumptions": ["user-space oracle for LocallyInfeasible allows the exact price of eliminating the slack: distance "
                         "> tol - 2 active_tol - 2 local_infeas_tol, projected gradient <= local_infeas_tol + (active_tol + 2 "
                         "local_infeas_tol) * max column sum of |J_s|; the internal oracle has no such allowance",
